@@ -38,9 +38,10 @@ func isStorageMethod(in ssa.Instruction, name string) bool {
 }
 
 func runC17(c *core.Ctx) core.Meta {
-	c.Load(sbmPkg)
+	c.Load(sbmPkg, r9nanoPkg, mi300aPkg)
 	c.BuildSSA()
 	p := NewPkgInfo(c, sbmPkg)
+	checkBankInterleaveCoversLine(c, "R17.16", NewPkgInfo(c, mi300aPkg), NewPkgInfo(c, r9nanoPkg))
 	checkLog2Units(c, "R17.15", 4, "Two accesses to one interleaving unit must meet in one bank to stay ordered; with the bank chosen by address / 6 they go to different banks and overtake each other.", p)
 	checkNoCompactionWhileRanging(c, "R17.14", 1, p)
 	prov := core.NewProv(c)
